@@ -149,7 +149,8 @@ func declDoc(decl ast.Decl) *ast.CommentGroup {
 }
 
 func noopFix(src []byte) []byte {
-	noopFuncReg := regexp.MustCompile(`(\w+)\(\)\s*{\s*}`)
+	//function declarations only: the same text inside a string literal or an expression is not to be touched
+	noopFuncReg := regexp.MustCompile(`(?m)^(func\b[^\n{]*\w+)\(\)\s*{\s*}`)
 	src = noopFuncReg.ReplaceAll(src, []byte("$1() { /*noop*/ }"))
 	return src
 }
